@@ -183,6 +183,95 @@ func extract(repo, out string) error {
 		ok = false
 	}
 
+	// error → wire code of every rejection path of the two checkers (net/secureservice/credential.go)
+	enum := map[string]int{}
+	if gpb, err := goast.Parse(filepath.Join(repo, "net/secureservice/handshake/handshakeproto/handshake.pb.go")); err == nil {
+		for _, d := range gpb.F.Decls {
+			gd, isG := d.(*ast.GenDecl)
+			if !isG || gd.Tok != token.CONST {
+				continue
+			}
+			for _, sp := range gd.Specs {
+				vs := sp.(*ast.ValueSpec)
+				if len(vs.Names) == 1 && len(vs.Values) == 1 && strings.HasPrefix(vs.Names[0].Name, "Error_") && gpb.Str(vs.Type) == "Error" {
+					if v, good := eval(vs.Values[0]); good {
+						enum[vs.Names[0].Name] = v
+					}
+				}
+			}
+		}
+	} else {
+		ok = false
+	}
+	// code of a HandshakeError composite literal: its `e:` field, 0 (Error_Null) when absent
+	litCode := func(f *goast.File, e ast.Expr) (int, bool) {
+		cl, isCL := e.(*ast.CompositeLit)
+		if !isCL || !strings.HasSuffix(f.Str(cl.Type), "HandshakeError") {
+			return 0, false
+		}
+		for _, el := range cl.Elts {
+			if kv, isKV := el.(*ast.KeyValueExpr); isKV && f.Str(kv.Key) == "e" {
+				v, has := enum[strings.TrimPrefix(f.Str(kv.Value), "handshakeproto.")]
+				return v, has
+			}
+		}
+		return 0, true
+	}
+	errVars := map[string]int{}
+	for _, d := range g.F.Decls {
+		gd, isG := d.(*ast.GenDecl)
+		if !isG || gd.Tok != token.VAR {
+			continue
+		}
+		for _, sp := range gd.Specs {
+			vs := sp.(*ast.ValueSpec)
+			if len(vs.Names) == 1 && len(vs.Values) == 1 && strings.HasPrefix(vs.Names[0].Name, "Err") {
+				if c, good := litCode(g, vs.Values[0]); good {
+					errVars[vs.Names[0].Name] = c
+				}
+			}
+		}
+	}
+	checkerCodes := func(recv string) []int {
+		gs, err := goast.Parse(filepath.Join(repo, "net/secureservice/credential.go"))
+		if err != nil {
+			ok = false
+			return nil
+		}
+		fd := gs.Fn(recv, "CheckCredential")
+		if fd == nil {
+			ok = false
+			return nil
+		}
+		var codes []int
+		ast.Inspect(fd.Body, func(n ast.Node) bool {
+			as, isAs := n.(*ast.AssignStmt)
+			if !isAs || as.Tok != token.ASSIGN || len(as.Lhs) != 1 || gs.Str(as.Lhs[0]) != "err" || len(as.Rhs) != 1 {
+				return true
+			}
+			if _, isCall := as.Rhs[0].(*ast.CallExpr); isCall {
+				return true // `err = msg.UnmarshalVT(…)`: replaced by a handshake error in the branch that follows
+			}
+			rhs := gs.Str(as.Rhs[0])
+			if c, has := errVars[strings.TrimPrefix(rhs, "handshake.")]; has && strings.HasPrefix(rhs, "handshake.Err") {
+				codes = append(codes, c)
+			} else if c, good := litCode(gs, as.Rhs[0]); good {
+				codes = append(codes, c)
+			} else {
+				ok = false
+				codes = append(codes, 0)
+			}
+			return true
+		})
+		return codes
+	}
+	nvCodes, pvCodes := checkerCodes("noVerifyChecker"), checkerCodes("peerSignVerifier")
+	// tryWriteErrAndClose: errors that are not HandshakeError are sent as Unexpected; ErrUnexpectedPayload closes silently
+	tw := g.Fn("handshake", "tryWriteErrAndClose")
+	if tw == nil || !goast.Contains(g, tw, "if err == ErrUnexpectedPayload {") || !goast.Contains(g, tw, "ackErr = handshakeproto.Error_Unexpected") || !goast.Contains(g, tw, "ackErr = he.e") {
+		ok = false
+	}
+
 	list := func(l []int) string {
 		s := make([]string, len(l))
 		for i, v := range l {
@@ -202,6 +291,8 @@ func extract(repo, out string) error {
 	for _, k := range []string{"localAck", "remoteAck", "credType", "credPayload", "credVersion", "credClient"} {
 		fmt.Fprintf(&b, "/-- release() clears this pooled field -/\ndef releaseResets_%s : Bool := %s\n", k, goast.LeanBool(reset[k]))
 	}
+	fmt.Fprintf(&b, "/-- wire codes of the rejection paths of noVerifyChecker.CheckCredential / peerSignVerifier.CheckCredential, in source order -/\ndef noVerifyErrCodes : List Nat := %s\ndef verifierErrCodes : List Nat := %s\n", list(nvCodes), list(pvCodes))
+	fmt.Fprintf(&b, "def errUnexpectedCode : Nat := %d\ndef errUnexpectedPayloadCode : Nat := %d\n", enum["Error_Unexpected"], errVars["ErrUnexpectedPayload"])
 	b.WriteString("end AnySync.Generated.Handshake\n")
 	return os.WriteFile(filepath.Join(out, "HandshakeConsts.lean"), []byte(b.String()), 0o644)
 }
